@@ -15,6 +15,18 @@ CHECKS = {
  "C09": dict(cat="model_checking", tech="TLA+ schedule state machine with estimator window bookkeeping; trace spec predicts counts/windows/switches/updates/re-search/routing from constants and good/rejected history",
    text="AdaptSchedule models both estimators as (count, first admissible draw) with the switch history; TLC checks staleness (foreground only holds draws since the switch before last), switch rule (full window and room for another before the final window), window growth, single re-search and statistic routing over all histories; real chains' hook logs must match the predicted counts, window sizes, switch/update draws and routing on every draw.",
    note="good/rejected for NUTS recomputed from draw index and divergence; for MCLMC inferred by TLC from logged counts", ref="5/C09"),
+ "C10": dict(cat="model_checking", tech="TLA+ controller spec (no cross-chain writes, prefix invariant over all interleavings) + trace validation of perturbed real Sampler runs against it with the sequential single-chain run as Full(i)",
+   text="Sampler.tla makes the non-interference structure explicit (chain i's log is advanced only by ChRecord(i)); real runs with num_cores 1..16, 1..8 chains, a seeded perturbing scheduler at every channel/lock/draw point and random pause/resume/progress/flush/inspect scripts are validated event by event: every draw's position hash must equal the draw of the sequential reference run of that chain, finalized traces must be prefixes of the reference records, different chains must have different reference sequences.",
+   note="interleavings sampled in the real code; reference run reproduces ChainProcess::start through the public API; identity by FNV hashes of bit patterns", ref="5/C10"),
+ "C11": dict(cat="model_checking", tech="TLA+ controller spec: TLC over all interleavings (deadlock, safety, termination under fairness) + trace validation of real Sampler runs with silent steps",
+   text="TLC explores all interleavings of user thread, controller and chain tasks for 2-3 chains, cores <,=,> chains, command scripts of length <= 3 incl. repeated pause, resume without pause, commands after completion, abort while paused / before start: no deadlock, every call returns, termination, complete or prefix traces, progress counters agree with the trace at quiescence. Real runs (perturbing scheduler, watchdog for hanging calls) must be behaviours of the spec; the spec's invariants are evaluated on every state of every observed execution.",
+   note="rayon and std::sync::mpsc trusted; log order is the order of emits under one mutex with send-before / receive-after conventions; negative observations (empty poll) are accepted if consistent with any instant since the chain's previous event", ref="5/C11"),
+ "C12": dict(cat="model_checking", tech="TLA+ controller spec with pause-window history variables (quota/since) checked by TLC and on traces of real runs with slow densities",
+   text="PauseBound (draws recorded after pause() returned <= commands queued for that chain at that moment; window closes when resume() is called), ParkedSilent and CompleteRun hold over all placements of pause/resume relative to the chain loop in the model; the same invariants are evaluated on every state of real executions with pauses landing at random offsets inside draws, and the final trace must equal the uninterrupted reference.",
+   note="pause placement in real code sampled by sleeps and scheduler perturbation", ref="5/C12"),
+ "C13": dict(cat="model_checking", tech="TLA+ controller spec with failure actions (TLC) + fault injection into the real Sampler validated against it",
+   text="Model: fatal density error, storage error, init failure, two faulty chains - no panic in the caller, wait_timeout reports Err, abort reports the failure, termination; the unwrap variant must violate NoPanic (teeth). Real code: injected fatal/recoverable density faults by evaluation index, failing storage backend, failing init_position and model construction, for every chain index and both terminal calls; the trace spec's final step requires an error outcome iff a failure action occurred.",
+   note="errors during the 500 initialisation attempts are retried by design and not counted as failures", ref="5/C13"),
 }
 NOT_APPLICABLE = {
  "C19": "encode/decode fidelity of a plain data structure plus equality of two deterministic runs: no state machine, schedule, history or fault to specify in TLA+ (DESIGN.md 5/C19)",
